@@ -80,6 +80,16 @@ class Sink:
     def __repr__(self):
         return "Sink(%r)" % (self.items,)
 
+    # two vectors are equal when their elements are (map keys that contain a vector, e.g. a variable with its access
+    # path); identity is what the rules use to follow one particular collection
+    def __eq__(self, other):
+        return isinstance(other, Sink) and self.items == other.items
+
+    def __ne__(self, other):
+        return not self.__eq__(other)
+
+    __hash__ = object.__hash__
+
 
 class PassWorld(World):
     def __init__(self, files, fn_file):
@@ -111,6 +121,11 @@ class PassWorld(World):
                 self.methods[(last(ty_), m_)] = v_
         self.stubs = {}
         self.struct_fields = {}
+        self.type_aliases = {}
+        for f in list(files) + [fn_file]:
+            for _p, it in all_items(facts.ast().get(f) or []):
+                if it["k"] == "TypeAlias" and it.get("ty"):
+                    self.type_aliases[it["name"]] = str(it["ty"]).replace(" ", "")
         for f in files:
             for _p, it in all_items(facts.ast().get(f) or []):
                 if it["k"] == "StructDef":
@@ -150,9 +165,22 @@ class PassWorld(World):
                         if fp["k"] == "PIdent" and fp.get("sub") is None and not fp["name"][:1].isupper():
                             env["&" + fp["name"]] = (v[3], f["name"])
                 return True
+            if isinstance(v, tuple) and len(v) > 2 and v[0] == "S" and v[1] == name and name in self.structs and len(self.structs[name]) == len(v[2]):
+                # a plain struct, destructured by field name
+                for f in p["fields"]:
+                    if f["name"] not in self.structs[name]:
+                        raise Unsupported("field %s of struct %s" % (f["name"], name))
+                    val_ = v[2][self.structs[name].index(f["name"])]
+                    if f.get("shorthand"):
+                        env[f["name"]] = val_
+                    elif not self.bind(f["pat"], val_, env, uses):
+                        return False
+                return True
             if isinstance(v, tuple) and v and v[0] in ("E", "S", "O", "K") or v == NONE:
                 if isinstance(v, tuple) and v[0] in ("O", "K"):
                     raise Unsupported("struct pattern against an opaque value")
+                if isinstance(v, tuple) and v[0] == "E" and v[2] == name and not p["fields"]:
+                    return True  # `Variant { .. }` also matches a unit variant
                 return False
             raise Unsupported("struct pattern %s against %r" % (name, v))
         if k in ("PTupleStruct", "PTuple") and any(x["k"] == "PRest" for x in p["elems"]):
@@ -207,6 +235,8 @@ class PassWorld(World):
     def default_of(self, ty):
         """the Default value of a type text (sets, maps, vectors, options, booleans, structs of those)"""
         base = ty.split("<")[0]
+        if ty in getattr(self, "type_aliases", {}):
+            return self.default_of(self.type_aliases[ty])
         if base in SET_TYPES:
             return MSet()
         if base in MAP_TYPES:
@@ -279,6 +309,13 @@ class PassWorld(World):
         if k == "Struct":
             name = last(e["path"])
             segs_s = e["path"].split("::")
+            if len(segs_s) >= 2 and segs_s[-2] == "Self":
+                try:
+                    st_ = self.self_type(env)
+                    if st_ in self.enums and name in self.enums[st_]:
+                        segs_s = segs_s[:-2] + [st_, name]
+                except Unsupported:
+                    pass
             owner = segs_s[-2] if len(segs_s) >= 2 and segs_s[-2] in self.enums and name in self.enums[segs_s[-2]] else (list(self.variant_owner[name])[0] if name in self.variant_owner and len(self.variant_owner[name]) == 1 else (list(self.struct_variant_owner[name])[0] if len(self.struct_variant_owner.get(name, ())) == 1 else None))
             if name not in self.structs and owner is not None:
                 fields = {}
@@ -286,7 +323,18 @@ class PassWorld(World):
                     fields[f["name"]] = self.eval(f["e"], env, uses)
                 return ("V", owner, name, fields)
         if k == "Try":
-            v = self.eval(e["e"], env, uses)
+            def typed_(x, depth=0):
+                # `it.collect()?` (possibly inside the block an inlined helper left): the `?` says it is a Result
+                if x.get("k") == "MethodCall" and x.get("method") == "collect" and not x.get("args") and not x.get("turbofish"):
+                    return dict(x, turbofish="Result<Vec<_>>")
+                if x.get("k") == "Paren" and depth < 4:
+                    return dict(x, e=typed_(x["e"], depth + 1))
+                if x.get("k") == "Block" and depth < 4 and x.get("stmts") and x["stmts"][-1].get("k") == "ExprStmt" and not x["stmts"][-1].get("semi"):
+                    return dict(x, stmts=x["stmts"][:-1] + [dict(x["stmts"][-1], e=typed_(x["stmts"][-1]["e"], depth + 1))])
+                return x
+
+            inner_ = typed_(e["e"])
+            v = self.eval(inner_, env, uses)
             if isinstance(v, tuple) and len(v) > 2 and v[0] == "S" and v[1] in ("Ok", "Err"):
                 if v[1] == "Ok":
                     return v[2][0]
@@ -332,6 +380,13 @@ class PassWorld(World):
             raise Unsupported("index into %r" % (b,))
         if k == "Path":
             p = e["path"]
+            if p.startswith("Self::") and p not in env:
+                try:
+                    st_ = self.self_type(env)
+                    if st_ in self.enums and p[6:] in self.enums[st_]:
+                        return super().eval(dict(e, path="%s::%s" % (st_, p[6:])), env, uses)
+                except Unsupported:
+                    pass
             if p not in env and last(p) in self.free and "::" not in p:
                 return ("F", p)
             sg0 = p.split("::")
@@ -477,8 +532,11 @@ class PassWorld(World):
                 if m == "union" and len(args) == 1 and isinstance(args[0], MSet):
                     return Iter(list(MSet(recv.items + args[0].items).items))
                 raise Unsupported("set method " + m)
-            if (isinstance(recv, Iter) or (isinstance(recv, tuple) and recv and recv[0] == "L")) and m == "collect" and not e["args"] and "Result<" in str(e.get("turbofish") or "").replace(" ", ""):
+            ret_ = (getattr(self, "_ret_stack", None) or [""])[-1].replace(" ", "")
+            if (isinstance(recv, Iter) or (isinstance(recv, tuple) and recv and recv[0] == "L")) and m == "collect" and not e["args"] and ("Result<" in str(e.get("turbofish") or "").replace(" ", "") or (not e.get("turbofish") and "Result<" in ret_ and "Vec<" in ret_ and env.get("__tail_of_fn") is not False)):
                 items_ = recv.rest() if isinstance(recv, Iter) else list(recv[1])
+                if not e.get("turbofish") and not all(isinstance(x, tuple) and len(x) > 2 and x[0] == "S" and x[1] in ("Ok", "Err") for x in items_):
+                    raise Unsupported("collect without a type: the elements are not results")
                 for x in items_:
                     if isinstance(x, tuple) and len(x) > 2 and x[0] == "S" and x[1] == "Err":
                         return x  # the first error wins
@@ -697,6 +755,20 @@ class PassWorld(World):
                     for x in items:
                         self.apply(args[0], [x], uses)
                     return ("T", ()) if m == "for_each" else Iter(items)
+                if m == "try_for_each" and len(args) == 1:
+                    # stops at the first Err / None, which is the result; Ok(()) / Some(()) otherwise
+                    kind_ = None
+                    for x in it.rest():
+                        r_ = self.apply(args[0], [x], uses)
+                        if isinstance(r_, tuple) and len(r_) > 2 and r_[0] == "S" and r_[1] == "Err":
+                            return r_
+                        if r_ == NONE:
+                            return NONE
+                        if isinstance(r_, tuple) and len(r_) > 2 and r_[0] == "S" and r_[1] in ("Ok", "Some"):
+                            kind_ = r_[1]
+                            continue
+                        raise Unsupported("try_for_each over %r" % (r_,))
+                    return S(kind_ or "Ok", ("T", ()))
                 if m == "count" and not args:
                     return len(it.rest())
                 if m == "enumerate" and not args:
@@ -997,13 +1069,26 @@ class PassWorld(World):
         if fn is None:
             return ("K", last(name), tuple(args))
         sinks = [(a, list(a.items)) for a in args if isinstance(a, Sink)]
+
+        def mutable_inside(x, depth=0):
+            if isinstance(x, (Sink, MSet, MMap)):
+                return True
+            if depth > 3:
+                return False
+            if isinstance(x, tuple) and x and x[0] in ("S", "T", "L") and len(x) > 1:
+                inner = x[2] if x[0] == "S" and len(x) > 2 else x[1]
+                return isinstance(inner, tuple) and any(mutable_inside(y, depth + 1) for y in inner)
+            if isinstance(x, tuple) and len(x) > 3 and x[0] == "V" and isinstance(x[3], dict):
+                return any(mutable_inside(y, depth + 1) for y in x[3].values())
+            return False
+
         try:
             return self.call_fn(fn, args)
         except Unsupported:
             for a, saved in sinks:
                 a.items = saved
-            if sinks:
-                raise  # a function that may push cannot be made opaque
+            if sinks or any(mutable_inside(a) for a in args):
+                raise  # a function that may push / insert cannot be made opaque
             return ("K", last(name), tuple(args))
 
 
@@ -1071,6 +1156,8 @@ def build_node(enum, vname, vdef, leaves, with_optional=True):
     vals = []
     for f in vdef["fields"]:
         v = leaf_for(f["ty"], f.get("name") or "?")
+        if v is None and f["ty"].replace(" ", "") == "String":
+            v = "%s_%s" % (vname.lower(), f.get("name"))  # names are compared with `==`: a plain string
         if v is None:
             v = O("%s.%s" % (vname, f.get("name")))
         if f.get("name") == "meta" or f["ty"].replace(" ", "") == "Meta":
